@@ -233,6 +233,19 @@ def explore(
                 if isinstance(e, CrosshairUnsupported):
                     k += ":" + str(e)[:60]
                 r[k] = r.get(k, 0) + 1
+                # where (innermost frame of the library or a harness): diagnosis aid, reported in the evidence
+                try:
+                    tb, best = e.__traceback__, None
+                    while tb is not None:
+                        fn_ = tb.tb_frame.f_code.co_filename
+                        if "/dns/" in fn_ or "/harness/" in fn_:
+                            best = "%s:%d" % (fn_.split("/verif/")[-1].split("/dns/")[-1] if "/harness/" in fn_ else "dns/" + fn_.split("/dns/")[-1], tb.tb_lineno)
+                        tb = tb.tb_next
+                    if best:
+                        w = stats.setdefault("unknown_where", {})
+                        w[best] = w.get(best, 0) + 1
+                except Exception:
+                    pass
             top, exhausted = space.bubble_status(CallAnalysis(status))
         if breakout or exhausted:
             break
